@@ -15,11 +15,11 @@ structure ScanOut where
   fields : List (String × String)
   buf : Bytes
 
-def blockTokens (r : Block) : List String :=
+def blockTokens (r : BlockN) : List String :=
   let (stop, hlen) := match r.stop with
     | .fin h => ("fin", h)
-    | .needMore => ("needmore", r.consumed)
-    | .invalidName => ("invalid", r.consumed)
+    | .needMore => ("needmore", r.touched)
+    | .invalidName => ("invalid", r.touched)
   [stop, toString hlen, toString r.fields.length] ++ r.fields.flatMap (fun kv => [encHex kv.1, encHex kv.2]) ++ [encHex r.buf]
 
 def takePairs : Nat → List String → Option (List (String × String) × List String)
@@ -41,9 +41,9 @@ def local_ (inp : Bytes) (o : ScanOut) : Bool :=
 def sameReading (a b : ScanOut) : Bool := a.stop == b.stop && a.hlen == b.hlen && a.fields == b.fields
 
 def respRest (dn : Bool) (buf : Bytes) : List String :=
-  match respParseE dn buf with
+  match respParseN dn buf with
   | (.ok (_, n), b') => ["ok", encHex (b'.drop n)]
-  | (.error .needMore, b') => ["err:timeout", encHex (respParseE dn b').2]
+  | (.error .needMore, b') => ["err:timeout", encHex (respParseN dn b').2]
   | (.error .bad, b') => ["err:bad", encHex b']
 
 def reqRest (dn : Bool) (buf : Bytes) : List String :=
@@ -53,9 +53,9 @@ def reqRest (dn : Bool) (buf : Bytes) : List String :=
   | (.error .bad, b') => ["err:bad", encHex b']
 
 def trailerRest (dn : Bool) (buf : Bytes) : List String :=
-  match trailerParseE dn [] buf with
+  match trailerParseN dn [] buf with
   | (.ok (_, n), b') => ["ok", encHex (b'.drop n)]
-  | (.error .needMore, b') => ["err:timeout", encHex (trailerParseE dn [] b').2]
+  | (.error .needMore, b') => ["err:timeout", encHex (trailerParseN dn [] b').2]
   | (.error .bad, b') => ["err:bad", encHex b']
 
 /-- the retry loop of a reader over two reads: parse the first read (twice: `n = 1`, then `n = Len()`), on need-more
@@ -88,9 +88,9 @@ def handle : Handler
     let isNM (e : HeadErr) : Bool := e == .needMore
     let isNMt (e : TrErr) : Bool := e == .needMore
     let out :=
-      if kind == "resp" then twoReads (fun b => cls3 isNM (respParseE dn b)) buf cut
+      if kind == "resp" then twoReads (fun b => cls3 isNM (respParseN dn b)) buf cut
       else if kind == "req" then twoReads (fun b => cls3 isNM (reqParseE dn b)) buf cut
-      else twoReads (fun b => cls3 isNMt (trailerParseE dn [] b)) buf cut
+      else twoReads (fun b => cls3 isNMt (trailerParseN dn [] b)) buf cut
     let rest := (hx (out.getLastD "-")).getD []
     pure { out, tag := "hdrbuf2:" ++ kind ++ ":" ++ out.headD "" ++ ":e" ++ boolTok (rest != buf.drop (buf.length - rest.length)) ++
              ":v" ++ boolTok (rest.count 32 != (buf.drop (buf.length - rest.length)).count 32) }
@@ -99,31 +99,29 @@ def handle : Handler
     let dn := dn == "1"
     let cut := min cut.toNat! buf.length
     let in1 := buf.take cut
-    let r1 := scanBlock dn in1
+    let r1 := scanBlockN dn in1
     let in2 := r1.buf ++ buf.drop cut
-    let r2 := scanBlock dn in2
-    let rw := scanBlock dn buf
-    let r4 := scanBlock dn rw.buf
-    let dry := anyDryFold dn (in1.length + 1) in1
+    let r2 := scanBlockN dn in2
+    let rw := scanBlockN dn buf
+    let r4 := scanBlockN dn rw.buf
+    let dry := anyDryFold dn (in1.length + 1) in1   -- tag only: the situation c627e0d repaired
     let out := blockTokens r1 ++ blockTokens r2 ++ blockTokens rw ++ blockTokens r4
-    let (spec, note, known) := match (do
+    let (spec, note) := match (do
         let (o1, t) ← parseScan impl
         let (o2, t) ← parseScan t
         let (ow, t) ← parseScan t
         let (o4, t) ← parseScan t
         if t.isEmpty then some (o1, o2, ow, o4) else none) with
-      | none => (false, "impl-output-unparsable(panic/loop)", false)
+      | none => (false, "impl-output-unparsable(panic/loop)")
       | some (o1, o2, ow, o4) =>
         let pLocal := local_ in1 o1 && local_ (o1.buf ++ buf.drop cut) o2 && local_ buf ow && local_ ow.buf o4
         let pIdem := sameReading o4 ow && o4.buf == ow.buf
         let pRescan := o1.stop != "needmore" || sameReading o2 ow
         (pLocal && pIdem && pRescan,
          (if pLocal then "" else "edit-not-local ") ++ (if pIdem then "" else "edit-not-idempotent ") ++
-           (if pRescan then "" else "rescan-after-edit-differs-from-whole"),
-         pLocal && pIdem && !pRescan && dry)
-    let stopTag (r : Block) := match r.stop with | .fin _ => "f" | .needMore => "n" | .invalidName => "i"
+           (if pRescan then "" else "rescan-after-edit-differs-from-whole"))
+    let stopTag (r : BlockN) := match r.stop with | .fin _ => "f" | .needMore => "n" | .invalidName => "i"
     pure { out, spec, specNote := note,
-           cls := if known then "obsfold-compacted-before-complete" else "",
            tag := "scanblk:" ++ stopTag r1 ++ stopTag rw ++ ":" ++ sizeClass rw.fields.length ++ ":e" ++ boolTok (r1.buf != in1) ++
              boolTok (rw.buf != buf) ++ ":v" ++ boolTok (rw.buf.count 32 != buf.count 32) ++
              ":d" ++ boolTok dry ++ ":r" ++ boolTok (r2.reading == rw.reading) ++ (if dn then ":dn" else "") }
